@@ -23,7 +23,7 @@ PROPS = {
         "assumptions": ["atomic durable meta commit (BoltDB)", "disk model of DESIGN §5"],
     },
     "C05": {
-        "suites": ["wal"],
+        "suites": ["wal", "sizes"],
         "partial": "the refinement theorem is about the L2 model (logical segment files; sealing decided by byte sizes, which the proof does not depend on) and programs whose indexes stay below 2^64-1; rotation is performed before the next call (the harness inserts a barrier); model = code is sampled exhaustively over a reduced alphabet to a length bound and randomly beyond, on simfs and on the real filesystem + BoltDB",
         "assumptions": ["no segment file exceeds 4 GiB (uint32 offsets; documented limit)", "immutable.SortedMap as a sorted list with the Seek/Prev semantics read from its source"],
     },
@@ -54,7 +54,7 @@ PROPS = {
         "assumptions": ["reads do not fail with I/O errors in the model", "Go slice/alloc semantics as modelled"],
     },
     "C12": {
-        "suites": ["codec", "wal", "conc"],
+        "suites": ["codec", "wal", "conc", "sizes"],
         "partial": "time.Time is modelled by its MarshalBinary wire form (Go stdlib, trusted); pool aliasing is carried by the generated fact decoderBytesCopies plus the monitor that scribbles over the input buffer after Decode; StoreLogs/GetLog round trip and the codec-ID matrix across reopen are carried by the wal suite (correspondence + monitor)",
         "assumptions": ["time.Time.MarshalBinary/UnmarshalBinary as in Go 1.23 (wire form 15/16 bytes)", "bytes.Buffer.Write never fails"],
     },
